@@ -174,6 +174,16 @@ func (p *c15) Run(i int) (res fw.Result) {
 				res.Fail("safe-wrapper", key, fmt.Sprintf("%d-level safe wrapper around %s coerces to (%q, %v, %v), the bare value to (%q, %v, %v)", lvl, z.Label, ws, wf, wb, s, f, b), nil)
 			}
 		}
+		// the same through a user-written SafeValue that nests instead of flattening
+		var u stick.Value = z.V
+		for lvl := 1; lvl <= 3; lvl++ {
+			u = gen.UserSafe{Inner: u, Types: []string{"html"}}
+			us, uf, ub := stick.CoerceString(u), stick.CoerceNumber(u), stick.CoerceBool(u)
+			res.Evals += 3
+			if us != s || !sameNum(uf, f) || ub != b {
+				res.Fail("safe-wrapper", key+":user", fmt.Sprintf("%d-level user-written safe wrapper around %s coerces to (%q, %v, %v), the bare value to (%q, %v, %v)", lvl, z.Label, us, uf, ub, s, f, b), nil)
+			}
+		}
 		switch v := z.V.(type) {
 		case bool:
 			ws, wf := "", 0.0
